@@ -57,7 +57,7 @@ manifest = {
     'setup_cmd': './vkit/bootstrap.sh',
     'hooks': {
         'guard': 'MAHMOUD_GLOM_VERIF',
-        'enable': 'no source hooks are needed: stubs S1/S2 are applied by the harness process to the imported module object (DESIGN.md 2.7)',
+        'enable': 'no source hooks are needed: stubs S2-S4 and the engine configuration E1-E5 are applied inside the checking process only (DESIGN.md 1.2, 2.7); /repo carries no instrumentation',
         'baseline_off_cmd': 'cd /repo && /venv/bin/python -m pytest -ra -q -p no:cacheprovider --timeout=900 --continue-on-collection-errors',
         'source_commits': [],
         'add_only': True,
